@@ -41,6 +41,7 @@ REQUIRED = ["oracle_equal", "oracle_unequal", "cross_class_pairs", "mutation_pai
 
 def gen_cases(ctx):
     rng = ctx.rng
+    yield from _regular_pairs(ctx, rng)
     n = ctx.n(12000, 250000)
     big = (4, 12) if ctx.tier == "quick" else (4, 24)
     for i in range(n):
@@ -96,6 +97,24 @@ def gen_cases(ctx):
         else:  # cross-class
             a = gen.random_pg(rng, "StereoCondensedReactionGraph", n_range=(1, 8), alphabet=gen.SMALL, p_stereo=rng.choice([0.0, 0.6]), p_role=rng.choice([0.0, 0.3]), p_change=rng.choice([0.0, 0.3]))
             yield {"kind": "cross", "cls": "cross", "a": pg_to_json(a), "b": None, "mut": None, "bseed": rng.randrange(1 << 30)}
+
+
+def _regular_pairs(ctx, rng):
+    """dense regular one-element graphs (optionally with one hydrogen per atom) vs a relabelled copy or a 2-switch of
+    themselves: nothing but the bond checks of the search itself can tell them apart"""
+    for i in range(ctx.n(4000, 60000)):
+        cls = CLASS_NAMES[i % 4]
+        a = gen.random_regular_pg(rng, cls, n=rng.choice([10, 12, 12, 14, 16]))
+        if a is None:
+            continue
+        if rng.random() < 0.3:
+            top = max(abs(x) for x in a["atoms"]) + 1
+            for k, x in enumerate(list(a["atoms"])):
+                a["atoms"][top + k] = {"atom_type": 1}
+                a["bonds"][frozenset((x, top + k))] = {}
+        b = a if i // 4 % 4 == 0 else (gen.two_switch(rng, a) or a)
+        b = sem.pg_relabel(b, gen.random_bijection(rng, b))
+        yield {"kind": "wl-hard", "cls": cls, "a": pg_to_json(a), "b": pg_to_json(b), "mut": None, "bseed": rng.randrange(1 << 30)}
 
 
 def _specified(pg):
